@@ -5,6 +5,9 @@ static journal_t J;
 static journal_superblock_t JSB;
 static struct buffer_head *BH;
 static int BS;
+#ifndef VERIF_BH_SLACK
+#define VERIF_BH_SLACK 0
+#endif
 
 /* journal_t as e2fsck_get_journal / e2fsck_journal_load (or the debugfs twins) leave it:
  * j_blocksize is the filesystem block size (1 KiB .. 64 KiB, power of two), the superblock was
@@ -14,8 +17,7 @@ static void build_journal(void)
 	LOAD_IN();
 	ASSUME(IN.bs_log <= 6);
 	BS = 1024 << IN.bs_log;
-	memset(&J, 0, sizeof(J));
-	memset(&JSB, 0, sizeof(JSB));
+	/* J and JSB are static, hence zero-filled (no memset here: some units replace the libc copy routines by contracts) */
 	J.j_superblock = &JSB;
 	J.j_blocksize = BS;
 	J.j_format_version = IN.format_version;
@@ -27,7 +29,7 @@ static void build_journal(void)
 static void build_bh(void)
 {
 	unsigned long sz = sizeof(struct buffer_head) + BS - sizeof(BH->b_data);
-	BH = malloc(sz);
+	BH = malloc(sz + VERIF_BH_SLACK);
 	ASSUME(BH != 0);
 #ifdef VERIF_NATIVE
 	for (int j = 0; j < BS; j++)
